@@ -20,8 +20,8 @@
 namespace hm {
 
 static const char* OPK[] = {"create", "release", "call", "destroy_mock", "move_mock", "destroy_seq", "move_seq", "new_watched",
-  "delete_watched", "copy_watched", "movecons_watched", "assign_watched", "moveassign_watched", "monitor", "push_tracer", "pop_tracer", "set_reporter", "assign_fresh_seq", "arm_reporter_to_destroy"};
-static const char* FNN[] = {"f", "g", "f2", "v", "r", "cr"};
+  "delete_watched", "copy_watched", "movecons_watched", "assign_watched", "moveassign_watched", "monitor", "push_tracer", "pop_tracer", "set_reporter", "assign_fresh_seq", "arm_ok_reporter_to_set_reporter", "arm_reporter_to_destroy"};
+static const char* FNN[] = {"f", "g", "f2", "v", "r", "cr", "sv"};
 static const char* OKN[] = {"done", "accept", "thrown", "nomatch", "forbidden", "seqmis", "logic_error", "nested_fatal", "other"};
 static const char* RKN[] = {"nomatch", "forbidden", "seqmis", "unfulfilled", "pending_destroyed", "seq_teardown", "still_alive", "unexpected_destruction", "other"};
 
@@ -42,7 +42,7 @@ std::string op_str(const Op& op) {
     }
     case OP_MONITOR: { const Shape& sh = g_shapes[op.shape]; o << " e" << (int)op.slot << " := REQUIRE_DESTRUCTION(w" << (int)op.obj << ')'; if (sh.seqar >= 1) o << " seq=s" << (int)op.s1; if (sh.seqar >= 2) o << ",s" << (int)op.s2; break; }
     case OP_RELEASE: o << " e" << (int)op.slot; break;
-    case OP_CALL: o << " obj" << (int)op.obj << '.' << FNN[op.fn] << '(' << (int)op.a1; if (op.fn == F2) o << ',' << (int)op.a2; o << ')'; break;
+    case OP_CALL: o << " obj" << (int)op.obj << '.' << FNN[op.fn] << '(' << (int)op.a1; if (op.fn == F2) o << ',' << (int)op.a2; o << ')'; if (op.k1 == 1) o << " [from a catch handler]"; break;
     case OP_DESTROY_MOCK: case OP_ARM_REPORTER: o << " obj" << (int)op.obj; break;
     case OP_MOVE_MOCK: o << " obj" << (int)op.obj << " -> obj" << (int)op.k1; break;
     case OP_DESTROY_SEQ: case OP_MOVE_SEQ: case OP_ASSIGN_SEQ: o << " s" << (int)op.s1; break;
@@ -51,6 +51,7 @@ std::string op_str(const Op& op) {
     case OP_ASSIGN_WATCHED: case OP_MOVEASSIGN_WATCHED: o << " w" << (int)op.obj << " = w" << (int)op.k1; break;
     case OP_PUSH_TRACER: o << " kind=" << (int)op.k1; break;
     case OP_SET_REPORTER: o << " gen=" << (int)op.k1 << (op.k2 ? " (pair)" : " (single)"); break;
+    case OP_ARM_OK: o << " gen=" << (int)op.k1; break;
     default: break;
   }
   return o.str();
@@ -88,8 +89,13 @@ static bool reps_match(const std::vector<Report>& m, size_t a, const std::vector
 static bool strs_match(const std::vector<std::string>& m, size_t a, const std::vector<std::string>& i, size_t b) {
   if (a == m.size()) return b == i.size();
   bool opt = !m[a].empty() && m[a][0] == '?';
-  const std::string want = opt ? m[a].substr(1) : m[a];
-  if (b < i.size() && want == i[b] && strs_match(m, a + 1, i, b + 1)) return true;
+  std::string want = opt ? m[a].substr(1) : m[a];
+  std::string got = b < i.size() ? i[b] : std::string();
+  if (!want.empty() && want[0] == '~') {  // tracer index not compared
+    want = want.substr(want.find(':') + 1);
+    if (b < i.size()) got = got.substr(got.find(':') + 1);
+  }
+  if (b < i.size() && want == got && strs_match(m, a + 1, i, b + 1)) return true;
   if (opt && strs_match(m, a + 1, i, b)) return true;
   return false;
 }
